@@ -8,6 +8,12 @@ harness/dense.py), a random pre-reset history (0..20 updates, jittered time stam
    model    : initTree; runTree pre; resetTree; runTree post   (Lean mirror of every operation's reset())
 A's post-reset outputs must equal B's (property) and the mirror's (correspondence); A's
 sampling_violation_counter must equal B's (it restarts at 0).
+
+Stream `reset/raising-history` (discrete) and `reset-c/raising-history` (dense): the history holds updates that the monitor
+rejects with an exception *part-way through the evaluation* (sqrt of a negative sample, ln / log of 0, division by zero, pow of
+a negative base, exp overflow: the generators of the other streams guard all of these), after other sub-formulas of the same
+update were already evaluated.  The caller catches the exception, calls reset() and goes on - the situation reset() exists
+for.  Oracle: the fresh monitor only (the model has no exceptions); the post-reset inputs do not raise.
 """
 from .. import common, formula as F, impl, disc
 from ..common import same_vals
@@ -16,7 +22,10 @@ from . import c02
 
 RULE = ("online specs: past-time formulas (typed/untyped, duplicated text), multi-assertion texts, pastified bounded-future "
         "formulas; pre-reset history of 0..20 updates (0 = reset before the first update) with jittered time stamps, 1..8 "
-        "post-reset updates. distinct by (spec, pre, post); non-trivial when the post-reset outputs are not constant +-inf.")
+        "post-reset updates. distinct by (spec, pre, post); non-trivial when the post-reset outputs are not constant +-inf. "
+        "raising-history streams: the same specs with a predicate over an unguarded sqrt / ln / log / pow / exp / division put "
+        "after (65 %), inside (25 %) or before (10 %) the formula or one of its assertions; the history holds 1..12 updates of "
+        "which the last one (80 %) and some others raise; dense: 1..3 history batches, the poisoned sample in the last one.")
 EXPLANATION = ("theorems: pushN_full (a full ring buffer refilled with end+1 neutral elements is the initial buffer), "
                "C10_reset_reachable (reset of any reachable state = freshly constructed state), C10_reset_fresh, "
                "C10_reset_then_run (subsequent updates and counters are those of a fresh monitor). Correspondence: reset "
@@ -25,7 +34,7 @@ ASSUMPTIONS = ["dense time: reset() reconstructs the operators (set_ast); covere
 REGIONS = {}
 
 
-def gen_case(rng):
+def gen_spec(rng):
     r = rng.random()
     if r < 0.75:
         c = c02.gen_case(rng)
@@ -43,18 +52,27 @@ def gen_case(rng):
                 c["asserts"] = defs
                 c["f"] = modular.inline(defs)["out"]
                 c["stream"] = "multi-assertion"
+    return c
+
+
+def gen_stamps(rng, n):
+    # jittered, sometimes irregular time stamps so that the counter is non-zero before the reset
+    ts, t = [], 0.0
+    for i in range(n):
+        ts.append(t)
+        t += rng.choice([1.0, 1.0, 1.0, 0.5, 2.0, 1.25])
+    return ts
+
+
+def gen_case(rng):
+    c = gen_spec(rng)
     npre = 0 if rng.random() < 0.15 else rng.randint(1, 20)
     npost = rng.randint(1, 8)
     c["npre"], c["npost"] = npre, npost
     c["early_resets"] = sorted(rng.sample(range(npre), min(npre, rng.choice([0, 0, 1, 2])))) if npre else []
     c["n"] = npre + npost
     c["data"] = F.gen_trace(rng, c02.all_vars(c) or ["a"], c["n"])
-    # jittered, sometimes irregular time stamps so that the counter is non-zero before the reset
-    ts, t = [], 0.0
-    for i in range(c["n"]):
-        ts.append(t)
-        t += rng.choice([1.0, 1.0, 1.0, 0.5, 2.0, 1.25])
-    c["ts"] = ts
+    c["ts"] = gen_stamps(rng, c["n"])
     # a configured tolerance (the gaps 0.5 / 1.25 are inside a tolerance of 0.5 and outside the default 0.1): reset() must keep
     # the configuration, only the counters start again
     c["tol"] = 0.5 if rng.random() < 0.4 else None
@@ -223,7 +241,385 @@ def explore(ctx, rng, count):
             ctx.diffs.append(d)
 
 
+# ------------------------------------------------------------------ histories with an update() that raises
+# kind: (term over the variable u, values of u on which the update raises, values of u on which it does not)
+_V = lambda u: ("v", u)  # noqa: E731
+UNSAFE = {
+    "sqrt": (lambda u: ("u", "sqrt", _V(u)), [-0.5, -1.0, -2.0, -3.0], [0.0, 0.5, 1.0, 2.0, 3.0, 4.0]),
+    "sqrt-shifted": (lambda u: ("u", "sqrt", ("b", "sub", _V(u), ("c", 1.0))), [0.5, 0.0, -1.0], [1.0, 2.0, 3.0, 4.0, 5.0]),
+    "ln": (lambda u: ("u", "ln", _V(u)), [0.0, -1.0], [0.5, 1.0, 2.0, 3.0, 4.0]),
+    "log": (lambda u: ("b", "log", _V(u), ("c", 2.0)), [0.0, -1.0], [0.5, 1.0, 2.0, 4.0]),
+    "pow": (lambda u: ("b", "pow", _V(u), ("c", 0.5)), [-1.0, -2.0], [0.0, 0.5, 1.0, 2.0, 4.0]),
+    "exp": (lambda u: ("u", "exp", _V(u)), [1000.0], [-3.0, -1.0, -0.5, 0.0, 0.5, 1.0, 2.0]),
+    "div": (lambda u: ("b", "div", ("c", 1.0), _V(u)), [0.0], [-3.0, -2.0, -1.0, -0.5, 0.5, 1.0, 2.0, 3.0, 4.0]),
+    "div-shifted": (lambda u: ("b", "div", ("c", 2.0), ("b", "sub", _V(u), ("c", 2.0))), [2.0], [-3.0, -1.0, 0.0, 0.5, 1.0, 3.0, 4.0]),
+}
+KINDS = ["sqrt", "sqrt", "sqrt-shifted", "ln", "log", "pow", "exp", "div", "div", "div-shifted"]
+
+
+def unsafe_predicate(rng, kind, u):
+    return ("b", rng.choice(["ge", "le", "gt", "lt"]), UNSAFE[kind][0](u), ("c", rng.choice([0.5, 1.0, 2.0])))
+
+
+def _occurrences(f, path=()):
+    """paths of the comparison, Boolean and temporal nodes of f (an arithmetic operand keeps its guard: `1 / (abs(x) + 1)`)"""
+    if f[0] in ("v", "c"):
+        return
+    if f[0] in ("t1", "t2", "tb1", "tb2") or f[1] == "not" or (f[0] == "b" and f[1] in F.CMP + F.BOOL):
+        yield path
+    for i, c in enumerate(F.children(f)):
+        yield from _occurrences(c, path + (i,))
+
+
+def _replace_at(f, path, fn):
+    if not path:
+        return fn(f)
+    kids = F.children(f)
+    kids[path[0]] = _replace_at(kids[path[0]], path[1:], fn)
+    return F.rebuild(f, kids)
+
+
+def inject(rng, f, pred):
+    """The predicate that can raise, evaluated after f (operands are evaluated left to right), after some sub-formula of f,
+    or before everything else (control: nothing was evaluated when the update is abandoned)."""
+    r = rng.random()
+    op = rng.choice(["and", "and", "or", "implies"])
+    if r < 0.65:
+        return ("b", op, f, pred), "after"
+    if r < 0.75:
+        return ("b", op, pred, f), "first"
+    occ = list(_occurrences(f))
+    if not occ:
+        return ("b", op, f, pred), "after"
+    return _replace_at(f, rng.choice(occ), lambda g: ("b", rng.choice(["and", "or"]), g, pred)), "inside"
+
+
+def gen_raising(rng):
+    c = gen_spec(rng)
+    kind = rng.choice(KINDS)
+    vs0 = c02.all_vars(c)
+    u = "e" if (not vs0 or rng.random() < 0.5) else rng.choice(vs0)
+    pred = unsafe_predicate(rng, kind, u)
+    if c["asserts"]:
+        defs = list(c["asserts"])
+        j = len(defs) - 1 if rng.random() < 0.6 else rng.randrange(len(defs))
+        body, place = inject(rng, defs[j][1], pred)
+        defs[j] = (defs[j][0], body)
+        c["asserts"] = defs
+        env = {}
+        for nm, b in defs:
+            env[nm] = c02.subst(b, env)
+        c["f"] = env["out"]
+    else:
+        c["f"], place = inject(rng, c["f"], pred)
+    c.pop("decl", None)
+    c["kind"], c["unsafe"], c["place"] = "raising-history", [kind, u], place
+    c["stream"] = "reset/raising-history"
+    npre, npost = rng.randint(1, 12), rng.randint(1, 6)
+    c["npre"], c["npost"], c["n"] = npre, npost, npre + npost
+    c["early_resets"] = sorted(rng.sample(range(npre), min(npre, rng.choice([0, 0, 0, 1, 2]))))
+    c["data"] = F.gen_trace(rng, c02.all_vars(c), c["n"])
+    _, poison, safe = UNSAFE[kind]
+    c["data"][u] = [rng.choice(safe) for _ in range(c["n"])]
+    # the updates of the history that raise: mostly the last one before the reset (what an abandoned update leaves behind is
+    # then still there when reset() is called), sometimes earlier ones as well or instead
+    bad = set(i for i in range(npre) if rng.random() < 0.15)
+    if rng.random() < 0.8 or not bad:
+        bad.add(npre - 1)
+    for i in bad:
+        c["data"][u][i] = rng.choice(poison)
+    c["poisoned"] = sorted(bad)
+    c["ts"] = gen_stamps(rng, c["n"])
+    c["tol"] = 0.5 if rng.random() < 0.4 else None
+    c["omit"], c["late_period"] = [], None
+    return c
+
+
+def run_raising(case):
+    text = c02.spec_text(case)
+    vs = c02.all_vars(case)
+    extra = [nm for nm, _ in case["asserts"][:-1]] if case["asserts"] else []
+    data, npre, n, ts = case["data"], case["npre"], case["n"], case["ts"]
+
+    def mk():
+        spec = impl.make_spec("ond", text, vs, extra_decl=extra, sampling=(1, "s", case["tol"]) if case.get("tol") else None)
+        spec.parse()
+        if case["pastify"]:
+            spec.pastify()
+        return spec
+
+    def row(i):
+        return [(v, data[v][i]) for v in vs]
+
+    def go():
+        a = mk()
+        raised = []
+        for i in range(npre):
+            try:
+                a.update(ts[i], row(i))
+            except impl.CaseTimeout:
+                raise
+            except Exception as e:  # noqa: BLE001  the caller catches what update() raises and goes on
+                raised.append([i, type(e).__name__])
+            if i in case.get("early_resets", ()):
+                a.reset()
+        a.reset()
+        cnt0 = a.sampling_violation_counter
+
+        def feed(m):
+            outs = []
+            for i in range(npre, n):
+                try:
+                    outs.append(m.update(ts[i] - ts[npre], row(i)))
+                except impl.CaseTimeout:
+                    raise
+                except Exception as e:  # noqa: BLE001
+                    outs.append("raised " + type(e).__name__)
+            return outs
+        outs_a = feed(a)
+        b = mk()
+        outs_b = feed(b)
+        return outs_a, outs_b, cnt0, a.sampling_violation_counter, b.sampling_violation_counter, raised
+    return text, impl.guarded(go)
+
+
+def _first_difference(outs_a, outs_b, eq):
+    """Index of the first update on which the reset monitor does not return what the fresh one returns; the comparison ends
+    where the fresh monitor itself raises (the property speaks about what update() returns).  -> (index | None, complete)"""
+    for j, (x, y) in enumerate(zip(outs_a, outs_b)):
+        if isinstance(y, str):
+            return None, False
+        if isinstance(x, str) or not eq(x, y):
+            return j, True
+    return None, True
+
+
+def check_raising(ctx, case):
+    text, res = run_raising(case)
+    rep = {"kind": "raising-history", "unsafe": case["unsafe"], "place": case.get("place"), "poisoned": case.get("poisoned"),
+           "tol": case.get("tol"), "spec": text, "formula": F.to_proto(case["f"]), "pastify": case["pastify"], "data": case["data"],
+           "ts": case["ts"], "npre": case["npre"], "early_resets": case.get("early_resets", []), "n": case["n"],
+           "asserts": [[nm, F.to_proto(b)] for nm, b in case["asserts"]] if case["asserts"] else None, "impl": res}
+    one = text.replace("\n", " ")
+    if res[0] != "ok":
+        return Violation("parse()/reset() raised %r (history of %d updates, some of them rejected): %s" % (res[1:], case["npre"], one),
+                         rep, stream=case["stream"])
+    outs_a, outs_b, cnt0, cnt_a, cnt_b, raised = res[1]
+    if raised:
+        ctx.count("raising-history:some-update-raised")
+        if raised[-1][0] == case["npre"] - 1:
+            ctx.count("raising-history:last-update-before-reset-raised")
+    vals = [x for x in outs_b if not isinstance(x, str)]
+    if vals and disc.nontrivial(vals):
+        ctx.nontrivial.add(disc.data_key(text, case["data"]) + (case["npre"],))
+    i, complete = _first_difference(outs_a, outs_b, lambda x, y: common.canon(x) == common.canon(y))
+    hist = "history of %d updates of which %s raised (%s of %r), caught by the caller" % (
+        case["npre"], ", ".join("#%d" % k for k, _ in raised) or "none", case["unsafe"][0], case["unsafe"][1])
+    if i is not None:
+        return Violation("after reset() (%s) update #%d returns %r, a fresh monitor returns %r: %s"
+                         % (hist, i, outs_a[i], outs_b[i], one), rep, stream=case["stream"])
+    if cnt0 != 0 or (complete and cnt_a != cnt_b):
+        return Violation("sampling_violation_counter after reset() (%s) is %r, then %r; fresh monitor: %r: %s"
+                         % (hist, cnt0, cnt_a, cnt_b, one), rep, stream=case["stream"])
+    if not complete:
+        ctx.count("raising-history:fresh-monitor-raises-after-reset")
+    return None
+
+
+def shrink_raising(case, fails, budget=150):
+    """Shorter history / fewer post-reset updates / smaller formula, keeping `fails`."""
+    steps = [0]
+
+    def ok(c):
+        steps[0] += 1
+        try:
+            return steps[0] <= budget and fails(c)
+        except common.HarnessError:
+            return False
+
+    def cut(c, i):
+        """the case without update i"""
+        npre = c["npre"] - (1 if i < c["npre"] else 0)
+        return dict(c, data={k: v[:i] + v[i + 1:] for k, v in c["data"].items()}, ts=c["ts"][:i] + c["ts"][i + 1:], n=c["n"] - 1,
+                    npre=npre, npost=c["n"] - 1 - npre, poisoned=[k - (k > i) for k in c.get("poisoned", []) if k != i],
+                    early_resets=[k - (k > i) for k in c.get("early_resets", []) if k != i and k - (k > i) < npre])
+    improved = True
+    while improved and steps[0] < budget:
+        improved = False
+        # drop an update of the history (first ones first), then a post-reset update (last ones first; one is kept)
+        for i in list(range(case["npre"])) + list(range(case["n"] - 1, case["npre"], -1)):
+            c2 = cut(case, i)
+            if ok(c2):
+                case, improved = c2, True
+                break
+        if improved:
+            continue
+        for k in ("early_resets", "tol"):
+            if case.get(k):
+                c2 = dict(case, **{k: [] if k == "early_resets" else None})
+                if ok(c2):
+                    case, improved = c2, True
+        if case["asserts"]:
+            continue
+        for g in F.shrink_candidates(case["f"]):
+            if steps[0] >= budget:
+                break
+            c2 = dict(case, f=g, data={k: v for k, v in case["data"].items() if k in F.variables(g)} or {"a": [0.0] * case["n"]})
+            if ok(c2):
+                case, improved = c2, True
+                break
+    return case
+
+
+def explore_raising(ctx, rng, count):
+    for _ in range(count):
+        c = gen_raising(rng)
+        ctx.evaluations += 1
+        ctx.count("stream:" + c["stream"] + ("/pastified" if c["pastify"] else "") + ("/multi-assertion" if c["asserts"] else ""))
+        ctx.count("raising-history:" + c["unsafe"][0])
+        ctx.count("raising-history:predicate-" + c["place"])
+        v = check_raising(ctx, c)
+        if v is None:
+            ctx.traces_validated += 1
+            continue
+        scratch = Ctx(ctx.id, ctx.tier, ctx.seed)
+        c2 = shrink_raising(c, lambda cc: check_raising(scratch, cc) is not None)
+        ctx.violations.append(check_raising(scratch, c2) or v)
+        if len(ctx.violations) >= 3:
+            return
+
+
+def raising_case_of(obj):
+    return {"stream": "reset/raising-history", "kind": "raising-history", "f": F.from_proto(obj["formula"]), "pastify": obj["pastify"],
+            "npre": obj["npre"], "n": obj["n"], "npost": obj["n"] - obj["npre"], "ts": obj["ts"], "tol": obj.get("tol"),
+            "data": {k: [float(x) for x in v] for k, v in obj["data"].items()}, "unsafe": obj["unsafe"], "place": obj.get("place"),
+            "poisoned": obj.get("poisoned", []), "early_resets": obj.get("early_resets", []),
+            "asserts": [(nm, F.from_proto(b)) for nm, b in obj["asserts"]] if obj.get("asserts") else None}
+
+
+# dense time: the history is one signal per variable handed over in 1..3 update() calls; a poisoned sample makes one of them raise
+def gen_raising_dense(rng):
+    from .. import dense
+    g = dense.DGen(rng, dense.VARS[:2], dense.DENSE_ON, max_bound=rng.choice([2, 4]))
+    f = g.formula(rng.choice([1, 2, 2, 3]))
+    kind = rng.choice(KINDS)
+    vs0 = F.variables(f)
+    u = "z" if (not vs0 or rng.random() < 0.5) else rng.choice(vs0)
+    f, place = inject(rng, f, unsafe_predicate(rng, kind, u))
+    vs = F.variables(f)
+    _, poison, safe = UNSAFE[kind]
+    pre, post = dense.gen_signals(rng, vs), dense.gen_signals(rng, vs)
+    pre[u] = [(t, rng.choice(safe)) for t, _ in pre[u]]
+    post[u] = [(t, rng.choice(safe)) for t, _ in post[u]]
+    # the poisoned sample: mostly the last one (all signals end at the same time stamp: it is part of the last update)
+    j = len(pre[u]) - 1 if rng.random() < 0.7 else rng.randrange(len(pre[u]))
+    pre[u][j] = (pre[u][j][0], rng.choice(poison))
+
+    def cuts(sig, k):
+        times = sorted({t for s in sig.values() for t, _ in s if t > 0})
+        return sorted(rng.sample(times, min(k, len(times))))
+    return {"stream": "reset-c/raising-history", "f": f, "unsafe": [kind, u], "place": place, "pre": pre, "post": post,
+            "pre_cuts": cuts(pre, rng.choice([0, 0, 1, 2])), "post_cuts": cuts(post, rng.choice([0, 0, 1]))}
+
+
+def check_raising_dense(ctx, case):
+    from .. import dense
+    f, pre, post = case["f"], case["pre"], case["post"]
+    vs = sorted(post)
+    text = dense.spec_text(f)
+
+    def batches(sig, cuts):
+        nup, chunks = dense.online_chunks(sig, cuts)
+        return [[[v, dense.py_sig(chunks[v][i])] for v in vs] for i in range(nup)]
+
+    def go():
+        a = impl.make_spec("onc", text, vs)
+        a.parse()
+        raised = []
+        for i, args in enumerate(batches(pre, case["pre_cuts"])):
+            try:
+                a.update(*args)
+            except impl.CaseTimeout:
+                raise
+            except Exception as e:  # noqa: BLE001  the caller catches what update() raises and goes on
+                raised.append([i, type(e).__name__])
+        a.reset()
+
+        def feed(m):
+            outs = []
+            for args in batches(post, case["post_cuts"]):
+                try:
+                    outs.append(m.update(*args))
+                except impl.CaseTimeout:
+                    raise
+                except Exception as e:  # noqa: BLE001
+                    outs.append("raised " + type(e).__name__)
+            return outs
+        ra = feed(a)
+        b = impl.make_spec("onc", text, vs)
+        b.parse()
+        return ra, feed(b), raised
+    out = impl.guarded(go)
+    rep = {"kind": "raising-history-dense", "monitor": "onc", "spec": text, "formula": F.to_proto(f), "unsafe": case["unsafe"],
+           "place": case.get("place"), "pre": dense.sig_rep(pre), "post": dense.sig_rep(post),
+           "pre_cuts": [str(t) for t in case["pre_cuts"]], "post_cuts": [str(t) for t in case["post_cuts"]], "impl": out}
+    if out[0] != "ok":
+        return Violation("dense online parse()/reset() raised %r: %s" % (out[1:], text), rep, stream=case["stream"])
+    ra, rb, raised = out[1]
+    if raised:
+        ctx.count("raising-history-dense:some-update-raised")
+        if raised[-1][0] == len(case["pre_cuts"]):
+            ctx.count("raising-history-dense:last-update-before-reset-raised")
+    canon = lambda r: [[float(p[0]), common.canon(p[1])] for p in r]  # noqa: E731
+    i, complete = _first_difference(ra, rb, lambda x, y: canon(x) == canon(y))
+    if i is not None:
+        return Violation("dense online: after reset() (history of %d updates of which %s raised (%s of %r), caught by the caller) "
+                         "update #%d returns %r, a fresh monitor returns %r: %s"
+                         % (len(case["pre_cuts"]) + 1, ", ".join("#%d" % k for k, _ in raised) or "none", case["unsafe"][0],
+                            case["unsafe"][1], i, ra[i], rb[i], text), rep, stream=case["stream"])
+    if not complete:
+        ctx.count("raising-history-dense:fresh-monitor-raises-after-reset")
+    if any(r for r in rb if not isinstance(r, str)):
+        ctx.nontrivial.add((text, str(rep["pre"]), str(rep["post"])))
+    return None
+
+
+def explore_raising_dense(ctx, rng, count):
+    for _ in range(count):
+        c = gen_raising_dense(rng)
+        ctx.evaluations += 1
+        ctx.count("stream:" + c["stream"])
+        ctx.count("raising-history-dense:" + c["unsafe"][0])
+        v = check_raising_dense(ctx, c)
+        if v is None:
+            ctx.traces_validated += 1
+            continue
+        # shrink: one history update, one post update, the history signals cut down to their last samples
+        scratch = Ctx(ctx.id, ctx.tier, ctx.seed)
+        for c2 in (dict(c, pre_cuts=[]), dict(c, post_cuts=[]), dict(c, pre_cuts=[], post_cuts=[])):
+            v2 = check_raising_dense(scratch, c2)
+            if v2 is not None:
+                c, v = c2, v2
+        ctx.violations.append(v)
+        if len(ctx.violations) >= 3:
+            return
+
+
+def raising_dense_case_of(obj):
+    from fractions import Fraction
+    from .. import dense
+    return {"stream": "reset-c/raising-history", "f": F.from_proto(obj["formula"]), "unsafe": obj["unsafe"], "place": obj.get("place"),
+            "pre": dense.sig_of_rep(obj["pre"]), "post": dense.sig_of_rep(obj["post"]),
+            "pre_cuts": [Fraction(t) for t in obj["pre_cuts"]], "post_cuts": [Fraction(t) for t in obj["post_cuts"]]}
+
+
 def replay(ctx, obj):
+    if obj.get("kind") == "raising-history":
+        v = check_raising(Ctx(ctx.id, ctx.tier, ctx.seed), raising_case_of(obj))
+        return (v is None), (v.what if v else "reset monitor behaves like a fresh one after a history with rejected updates")
+    if obj.get("kind") == "raising-history-dense":
+        v = check_raising_dense(Ctx(ctx.id, ctx.tier, ctx.seed), raising_dense_case_of(obj))
+        return (v is None), (v.what if v else "dense reset monitor behaves like a fresh one after a history with rejected updates")
     if obj.get("monitor") == "onc":
         from .. import dense
         return dense.replay_reset(ctx, obj)
@@ -239,12 +635,20 @@ def replay(ctx, obj):
 def run(ctx):
     explore(ctx, ctx.subrng("reset"), ctx.budget(1000, 8000))
     if not ctx.violations:
+        explore_raising(ctx, ctx.subrng("reset-raising"), ctx.budget(120, 1600))
+    if not ctx.violations:
         try:
             from .. import dense
             dense.reset_stream(ctx)
         except ImportError:
             ctx.notes.append("dense-time reset stream not available yet")
+    if not ctx.violations:
+        explore_raising_dense(ctx, ctx.subrng("reset-c-raising"), ctx.budget(30, 500))
 
 
 def search(ctx):
     explore(ctx, ctx.subrng("search"), ctx.budget(1000, 5000))
+    if not ctx.violations:
+        explore_raising(ctx, ctx.subrng("search-raising"), ctx.budget(400, 2000))
+    if not ctx.violations:
+        explore_raising_dense(ctx, ctx.subrng("search-c-raising"), ctx.budget(100, 600))
